@@ -8,6 +8,7 @@ import (
 	"regexp"
 	"strings"
 
+	"github.com/a-h/templ/cmd/templ/fmtcmd"
 	"github.com/a-h/templ/generator"
 	parser "github.com/a-h/templ/parser/v2"
 )
@@ -15,6 +16,14 @@ import (
 func init() {
 	register("C08", func(e *emitter, tier string, seed uint64) { runFmt(e, tier, seed, "C08") })
 	register("C09", func(e *emitter, tier string, seed uint64) { runFmt(e, tier, seed, "C09") })
+}
+
+// fmtViaCommand formats through the real `templ fmt` command path (stdin to stdout), which is what format-on-save
+// and CI run; it must agree with Write(ParseString(src)).
+func fmtViaCommand(src string) (string, error) {
+	var out bytes.Buffer
+	err := fmtcmd.Run(quietLog, strings.NewReader(src), &out, fmtcmd.Arguments{})
+	return out.String(), err
 }
 
 // fmtTempl is what `templ fmt` does with stdin: Write(ParseString(src)).
@@ -69,6 +78,28 @@ func repoTemplates() []string {
 	return out
 }
 
+// fmtSeeds: template bodies that witnessed formatter defects (repaired or recorded) or that seeded changes needed
+// in order to manifest; they run first on every check.
+var fmtSeeds = []string{
+	`<section title={ s }>{ children... }</section>`,
+	`<p>{ s /* c */ }</p>`,
+	`<a title="1&quot;2" data-k='a&#39;b' href="/s?q=1&amp;copy=2&amp;lt=5">x</a>`,
+	`<label onmouseover={ hello(t) } title="it's" if false { onclick={ hello(s) } }>{ items[0] }</label>`,
+	`<em><ul if p.On { { attrs... } }  { attrs... }>x</ul></em>`,
+	`<p><span>a</span> <a href="x" if c { class="y" }>t</a></p>`,
+	`<p><span>a</span> <em>@leaf(s)</em> <b>c</b></p>`,
+	"<section>\n\t\tHello <div>x</div>\n\t</section>",
+	"<section>\n\t\t<b>x</b> tail </section>",
+	"{{ if b { _ = n } }}",
+	"<button>{{ for i := 0; i < n; i++ { _ = i } }}</button>",
+	"{{ x := 1 // c\n\t}}\n\t<i class={ s // c\n\t}>{ t // c\n\t}</i>",
+	"<article>text {! leaf(s) }</article>",
+	"<div><span>a</span>if b {\n\t\t<b>b</b>\n\t}</div>",
+	"<div><span>a</span><em>\n\t\tb\n\t</em></div>",
+	"<div>\n\t\tif b {\n\t\t\t<span>a</span>}\n\t\t<b>c</b>\n\t</div>",
+	"<!-- begin\n\tend -->\n\t<script>\n\t\tvar a = 1;\n\t</script>\n\t<style>\n\t\tp { color: red; }\n\t</style>",
+}
+
 func runFmt(e *emitter, tier string, seed uint64, prop string) {
 	do := func(src string, origin string) {
 		if !e.mine(src) {
@@ -80,6 +111,13 @@ func runFmt(e *emitter, tier string, seed uint64, prop string) {
 			return // not accepted by parse + generate + gofmt: outside the quantifier
 		}
 		f1, err1 := fmtTempl(src)
+		// the command path must produce the same text (it is the one users run)
+		if fc, errc := fmtViaCommand(src); (errc == nil) != (err1 == nil) || (errc == nil && fc != f1) {
+			e.count("command-path-differs")
+			if errc == nil {
+				f1, err1 = fc, nil // judge the property on what the command really writes
+			}
+		}
 		if prop == "C09" {
 			f2, err2 := "", err1
 			if err1 == nil {
@@ -118,8 +156,13 @@ func runFmt(e *emitter, tier string, seed uint64, prop string) {
 	for _, s := range repoTemplates() {
 		do(s, "repo")
 	}
+	for _, b := range fmtSeeds {
+		src := tgenPrelude + "templ T0(" + tgenSig + ") {\n\t" + b + "\n}\n"
+		do(src, "seed")
+		do(strings.ReplaceAll(src, "\n", "\r\n"), "seed")
+	}
 	r := &rng{s: seed}
-	n := 1500
+	n := 2500
 	if tier == "thorough" {
 		n = 40000
 	}
